@@ -104,6 +104,14 @@ def build_pool(ctx, scratch):
             ctx.count('unbundled_identification_messages_in_pool')
         except Exception:
             pass
+    # fields wider than 64 bits are refused - whatever narrower or wider fields were handled before
+    for wide in ([206072, 63250, 1001], [206080, 63250, 1001], [201190, 12001, 201000, 1001], [206066, 63250, 1001]):
+        try:
+            B, D = R.load_tables(0, 0, 0, 33, 0)
+            msg = R.build_message(wide, B, D, R.Policy(rng), 1, False, 4, dict(master_table_version=33, update_sequence_number=len(pool)))
+            pool.append(('refused-wide-%d' % len(pool), msg.bytes, None))
+        except Exception:
+            pass
     # every shard covers all versions across its histories: messages over many versions
     for v in versions:
         if len(pool) >= n * 2 // 3:
@@ -167,6 +175,10 @@ def fresh_golden(ctx, pool, scratch):
             continue
         if 'error' in g:
             ctx.count('golden_decode_error')
+            if name.startswith('refused'):
+                # a message that a brand-new interpreter refuses: it is refused after any history as well
+                gold[i] = dict(refused=g['error'])
+                ctx.count('refused_messages_in_pool')
             continue
         # the encode golden comes from an interpreter that has not decoded anything (not even this message) - for the
         # messages where that can matter (table identifications outside the bundle, table-sensitive pairs) and a third of
@@ -264,6 +276,22 @@ def run_history(ctx, pool, gold, limit, hno, alts):
             i = rng.choice(idxs)
             name, b, _ = pool[i]
             g = gold[i]
+            if 'refused' in g:
+                dn = rng.choice(list(decs))
+                hist.append('decode-refused[%s]:%s' % (dn, name))
+                ctx.count('refused_message_steps')
+                ctx.count('history_steps')
+                ctx.evaluated((hno, ctx.shard, step, 'refused', name), True)
+                try:
+                    decs[dn].process(b)
+                    ctx.violate('history-dependence/refused-message-decodes/after-%s' % prev,
+                                'step %d: %s is refused (%s) by a new interpreter but decodes after history %s'
+                                % (step, name, g['refused'], hist[-8:]), dict(history=hist, step=step, message=name, op='decode'))
+                except Exception:
+                    pass
+                prev = 'failure'
+                prev_msg = None
+                continue
             r = rng.random()
             size0 = cache_sizes()
             nontrivial = prev_msg != i or prev in ('failure',)
@@ -333,6 +361,15 @@ def run_history(ctx, pool, gold, limit, hno, alts):
                 ctx.count('history_steps')
                 continue
             elif r < 0.77:
+                if rng.random() < 0.15:
+                    # history event: ANOTHER encoder object, built with a table-version override, encodes something
+                    ov = rng.choice([13, 31, 25])
+                    hist.append('other-encoder(master_table_version=%d):%s' % (ov, name))
+                    ctx.count('encoders_with_override_in_history')
+                    try:
+                        Encoder(master_table_version=ov).process(g['flat_json'])
+                    except Exception:
+                        pass
                 en = rng.choice(list(encs))
                 op = 'encode[%s]' % en
                 hist.append('%s:%s' % (op, name))
